@@ -49,20 +49,26 @@ def move_nodes(parent: Element, nodes: List[Element], target: Optional[Element] 
         parent.insert(i, node)
 
 
+_ANY = object()
+
+
 def find_child(
         parent: Element,
         child_tag: str,
-        id: Optional[str] = None
+        id: Optional[str] = _ANY
     ) -> Tuple[Optional[Element], Optional[int]]:
     """
     Find an element with *child_tag* in *parent* and return ``(child, index)``
     or ``(None, None)`` if not found. If *id* is provided, it will be searched
-    for, otherwise the first child will be returned.
+    for, otherwise the first child will be returned. An *id* of ``None`` (a
+    blank ID in a message) is not a wildcard: it matches nothing.
     """
     for i, child in enumerate(parent):
         if child.tag == child_tag:
-            if id is None:
+            if id is _ANY:
                 return (child, i)
+            if id is None:
+                continue
             child_id = child.find(f'{child_tag}ID').text
             if child_id == id:
                 return (child, i)
